@@ -193,18 +193,26 @@ def run(tier, replay):
     # last 1..4 blocks, then a block re-spending what the dropped blocks had spent
     import subprocess
     chain_level = []
-    depths = [1, 2, 3, 5] if tier == "thorough" else [2]
-    for dep in depths:
-        p = subprocess.run([os.path.join(vlib.HARNESS_BINDIR, "h_crash"), "compact_reorg", "--dir", os.path.join(wd, "cr%d" % dep),
-                            "--blocks", "88", "--depth", str(dep), "--seed", str(vlib.seed() + dep)],
-                           stdout=subprocess.PIPE, stderr=subprocess.PIPE, text=True, timeout=1800)
+    # (blocks, reorg depth): depth 20 on a 90-block chain forks off the horizon block itself
+    plans = [(88, 1), (88, 3), (88, 5), (90, 10), (90, 20)] if tier == "thorough" else [(88, 2), (90, 20)]
+    import concurrent.futures as cf
+
+    def one(pl):
+        nb, dep = pl
+        p = subprocess.run([os.path.join(vlib.HARNESS_BINDIR, "h_crash"), "compact_reorg", "--dir", os.path.join(wd, "cr%d_%d" % (nb, dep)),
+                            "--blocks", str(nb), "--depth", str(dep), "--seed", str(vlib.seed() + dep)],
+                           stdout=subprocess.PIPE, stderr=subprocess.PIPE, text=True, timeout=2400)
+        return pl, p
+    with cf.ThreadPoolExecutor(max_workers=3) as ex:
+        outs = list(ex.map(one, plans))
+    for (nb, dep), p in outs:
         if p.returncode != 0 or not p.stdout.strip():
             print(p.stdout[-1500:], p.stderr[-1500:])
             raise ToolError("compact_reorg scenario failed to run")
         o = json.loads(p.stdout.strip().splitlines()[-1])
-        chain_level.append({"reorg_depth": dep, "compact": o["compact"], "problems": len(o["problems"]), "head_height": o["head_height"]})
+        chain_level.append({"blocks": nb, "reorg_depth": dep, "compact": o["compact"], "problems": len(o["problems"]), "head_height": o["head_height"]})
         for pr in o["problems"]:
-            rep.violation("pmmrstore:chain:compact_reorg:%s" % pr["what"].split(":")[-1], {"kind": "compact_reorg", "depth": dep, "problem": pr, "spent_old": o["spent_old"]},
+            rep.violation("pmmrstore:chain:compact_reorg:%s" % pr["what"].split(":")[-1], {"kind": "compact_reorg", "blocks": nb, "depth": dep, "problem": pr, "spent_old": o["spent_old"]},
                           json.dumps(pr)[:300])
 
     rep.coverage = {
